@@ -1301,6 +1301,10 @@ impl Ty {
                     sub_ty: expected_sub,
                 },
             ) => found_uid == expected_uid && found_sub == expected_sub,
+            // a value of the underlying type can become the distinct, unless it is a value of
+            // another nominal type (a variant isn't a `distinct` of that variant, a named struct
+            // isn't a `distinct` of that struct). anonymous struct literals still are
+            (Ty::EnumVariant { .. } | Ty::ConcreteStruct { .. }, Ty::Distinct { .. }) => false,
             (found, Ty::Distinct { sub_ty: ty, .. }) => found.can_fit_into(ty),
             (
                 Ty::EnumVariant {
@@ -1840,6 +1844,8 @@ impl Ty {
             (Ty::ConcreteStruct { .. } | Ty::AnonStruct { .. }, Ty::ConcreteStruct { .. }) => {
                 self.can_fit_into(expected)
             }
+            // (see `can_fit_into`)
+            (Ty::EnumVariant { .. } | Ty::ConcreteStruct { .. }, Ty::Distinct { .. }) => false,
             (found, Ty::Distinct { sub_ty: ty, .. }) => found.is_weak_replaceable_by(ty),
             (
                 Ty::Optional {
